@@ -225,3 +225,55 @@ func Fsck(b []byte, scaler uint32, tables map[string][]byte) (where, msg string)
 	}
 	return "", ""
 }
+
+// FsckLoca checks the glyph location table of a TrueType-flavoured file
+// against the OpenType specification ("loca": numGlyphs+1 offsets in the
+// format head.indexToLocFormat names, in ascending order, the last one the
+// end of the glyph data), using nothing but the table directory.  Files
+// without the four tables involved are not judged.
+func FsckLoca(file []byte) (where, msg string) {
+	dir, err := ParseDirectory(file)
+	if err != nil {
+		return "", ""
+	}
+	tab := map[string][]byte{}
+	for _, e := range dir.Entries {
+		if uint64(e.Offset)+uint64(e.Length) <= uint64(len(file)) {
+			tab[e.Tag] = file[e.Offset : e.Offset+e.Length]
+		}
+	}
+	head, maxp, loca, glyfData := tab["head"], tab["maxp"], tab["loca"], tab["glyf"]
+	if len(head) < 54 || len(maxp) < 6 || loca == nil || tab["glyf"] == nil && len(loca) == 0 {
+		return "", ""
+	}
+	format := int(head[50])<<8 | int(head[51])
+	n := int(maxp[4])<<8 | int(maxp[5])
+	size := 2
+	switch format {
+	case 0:
+	case 1:
+		size = 4
+	default:
+		return "loca/format", fmt.Sprintf("head.indexToLocFormat is %d", format)
+	}
+	if len(loca) < (n+1)*size {
+		return "loca/length", fmt.Sprintf("loca has %d bytes, %d glyphs in format %d need %d", len(loca), n, format, (n+1)*size)
+	}
+	prev := 0
+	for i := 0; i <= n; i++ {
+		var off int
+		if size == 2 {
+			off = 2 * (int(loca[2*i])<<8 | int(loca[2*i+1]))
+		} else {
+			off = int(loca[4*i])<<24 | int(loca[4*i+1])<<16 | int(loca[4*i+2])<<8 | int(loca[4*i+3])
+		}
+		if off < prev {
+			return "loca/order", fmt.Sprintf("loca entry %d is %d, the entry before is %d (offsets must ascend; glyf has %d bytes, format %d)", i, off, prev, len(glyfData), format)
+		}
+		if off > len(glyfData) {
+			return "loca/range", fmt.Sprintf("loca entry %d is %d, glyf has %d bytes", i, off, len(glyfData))
+		}
+		prev = off
+	}
+	return "", ""
+}
